@@ -48,6 +48,7 @@ type nftWorkload struct {
 	nCls  int
 	nTok  int
 	quiet bool // as part of the all-modules director: no model tracking of foreign effects
+	followUp []mtFollow // after a rolled-back class handover: the would-be new creator tries to use the class
 }
 
 func newNFTWorkload() *nftWorkload {
@@ -103,6 +104,27 @@ func (w *nftWorkload) Next(block int) []rig.Tx {
 	rng := w.run.Rng
 	r := w.r
 	var out []rig.Tx
+	for _, f := range w.followUp {
+		if a := findAcc(r, f.Actor); a != nil && w.model[f.Class] != nil {
+			tid := fmt.Sprintf("tok%d", w.nTok)
+			w.nTok++
+			out = append(out, r.Mk(a, &nftTag{Op: "mint"}, &nfttypes.MsgMintNFT{Id: tid, DenomId: f.Class, Name: "after-rollback", URI: "u", Data: "{}", Sender: f.Actor, Recipient: f.Actor}),
+				r.Mk(a, &nftTag{Op: "transfer-class"}, &nfttypes.MsgTransferDenom{Id: f.Class, Sender: f.Actor, Recipient: f.Actor}))
+		}
+	}
+	w.followUp = nil
+	if classes := w.sortedClasses(); len(classes) > 0 && rng.Intn(4) == 0 && !w.quiet {
+		// one transaction, two messages: a valid handover of the class by its creator, then a message that always fails
+		// (burn of a token that does not exist): rolled back as a whole, nothing of the handover may remain
+		cid := classes[rng.Intn(len(classes))]
+		c := w.model[cid]
+		if a, b := findAcc(r, c.Creator), r.Acc(rng.Intn(len(r.Accounts))); a != nil && a != b {
+			out = append(out, r.Mk(a, &nftTag{Op: "bundle-rolled-back"},
+				&nfttypes.MsgTransferDenom{Id: cid, Sender: c.Creator, Recipient: b.Addr.String()},
+				&nfttypes.MsgBurnNFT{Id: "nosuchtoken", DenomId: cid, Sender: c.Creator}))
+			w.followUp = append(w.followUp, mtFollow{Class: cid, Actor: b.Addr.String()})
+		}
+	}
 	n := 1 + rng.Intn(4)
 	// the model is advanced optimistically inside a block only by Observe; intents are planned against the committed model,
 	// so ops in one block may conflict — permission is re-evaluated in Observe against the model state at that tx.
@@ -239,6 +261,14 @@ func modify(cur, target string) string {
 func (w *nftWorkload) Observe(br *rig.BlockRecord) {
 	for _, tx := range br.Txs {
 		tag, _ := tx.Tag.(*nftTag)
+		if tag != nil && tag.Op == "bundle-rolled-back" {
+			w.run.Eval(1)
+			w.run.Count("nft-bundle-rolled-back"+okSuffix(tx), 1)
+			if tx.OK() && !w.quiet {
+				w.run.Violation("C14:nft:transaction-with-a-failing-message-succeeded", map[string]any{"height": br.Height, "msgs": msgBrief(tx.Msgs)}, "a transaction whose second message burns a token that does not exist succeeded")
+			}
+			continue
+		}
 		if tag == nil || len(tx.Msgs) != 1 {
 			continue
 		}
